@@ -26,7 +26,7 @@ ASSUMPTIONS = ["simulated Slurm; all jobs succeed between steps", "an absent has
 KINDS = ["run", "run", "run_fault", "dry", "status", "touch", "clean", "edit", "edit", "toggle", "rename", "remove"]
 
 
-QUICK_BUDGET = {"cases": 160, "deadline_s": 170, "case_timeout_s": 150, "floors": {"steps": 565, "store_comparisons": 844, "status_comparisons": 565, "record_changes": 68}}
+QUICK_BUDGET = {"cases": 160, "deadline_s": 170, "case_timeout_s": 150, "floors": {"steps": 565, "store_comparisons": 844, "status_comparisons": 565, "record_changes": 68, "config_cli_switches": 25}}
 THOROUGH_FACTOR = 12  # thorough = the same workload with 12x the cases (floors scale along)
 
 
@@ -67,10 +67,36 @@ def run_case(case):
         def write_all():
             variant = [{"name": t["name"], "ins_expr": repr(t["ins"]), "outs_expr": repr(t["outs"]), "spec": t["spec"], "route": "target", "protect_expr": repr(t["outs"]) if t.get("protect_all") and t["outs"] else None} for t in ts]
             proj.write_workflow(gen.render_workflow(variant))
+            if via_cli:
+                return
             cfg = {"backend": "slurm"}
             if enabled:
                 cfg["use_spec_hashes"] = True
             proj.write_config(cfg)
+
+        # in a third of the histories the switch is operated the way a user does it: `gwf config set/unset`
+        via_cli = case["seed"] % 3 == 0
+        cfg_rng = random.Random(case["seed"] + 5)
+
+        def switch(on):
+            if not via_cli:
+                return
+            if on:
+                args = ["config", "set", "use_spec_hashes", cfg_rng.choice(["yes", "true", "1"])]
+            elif cfg_rng.random() < 0.25:
+                args = ["config", "unset", "use_spec_hashes"]
+            else:
+                args = ["config", "set", "use_spec_hashes", cfg_rng.choice(["no", "false", "0"])]
+            r = cli.gwf(root, args, env)
+            res.mon("config_cli_switches")
+            kinds.append("c")
+            if r.rc != 0:
+                res.violation("crash", "gwf %s failed" % " ".join(args), **cli.crash_witness(r))
+
+        if via_cli:
+            proj.write_config({"backend": "slurm"})
+            write_all()  # the workflow file has to exist before `gwf config` can be used
+            switch(enabled)
 
         def mview():
             mts = [dict(t, wd=root) for t in ts]
@@ -202,6 +228,7 @@ def run_case(case):
             elif k == "toggle":
                 enabled = not enabled
                 write_all()
+                switch(enabled)
                 kinds.append("T" if enabled else "D")
             elif k == "rename":
                 # rename a target that nobody depends on by name (dependencies go through files, so any target)
